@@ -681,7 +681,7 @@ def leaf_spec(draw, shape, cur, ctxk, opts):
             names += ["naive", "lu", "qr", "svd", "householder", "batchnorm", "ar_affine", "ar_spline", "ar_spline"]
             if allow_umnn and D <= 3:
                 names += ["ar_umnn"]
-            if ctxk is not None and ctxk == D and opts.get("glu", True):
+            if ctxk is not None and ctxk in (D, 1) and opts.get("glu", True):     # ctxk == 1 < D: one gate broadcast over all features
                 names += ["glu"]
         else:
             names += ["conv1x1"]
